@@ -1,0 +1,16 @@
+//go:build verif
+
+package getters
+
+// Contracts for the deductive verifier in /verif (govc). Comments only; build tag "verif".
+//
+// C06: the cascade returns a value only from a getter call that returned no error (ghost $FromOK: the
+// last call of `get` succeeded and its value is the one returned), and the zero value next to any error:
+// partial results of failed getters are discarded.
+//@ func cascadeGetters
+//@   property C06
+//@   noframe
+//@   param get: ensures $FromOK <==> $err == nil
+//@   ensures err == nil ==> $FromOK
+//@   checks err != nil ==> result0 == zero
+//@   loop 1: invariant true
